@@ -221,7 +221,7 @@ def s20_circles(ctx):
     from fractopo.analysis.random_sampling import NetworkRandomSampler, RandomChoice
     from fractopo.general import crop_to_target_areas
 
-    res = StreamResult("S20-circles", rule="random target circles (radius 5..50, any centre; every sampler of the run has the same name) x min radii x both random-choice modes x RNG seeds; radius and containment judged against the circle the sampler was given; "
+    res = StreamResult("S20-circles", rule="random target circles (radius 5..50, any centre; every sampler of the run has the same name; every other source frame with shuffled integer labels) x min radii x both random-choice modes x RNG seeds; radius and containment judged against the circle the sampler was given; "
                        "sample network compared with the direct crop of the source traces to the sample circle; non-trivial = distinct sample")
     rng = rng_for(ctx.seed, "S20c")
     reqs, meta = [], []
@@ -231,6 +231,11 @@ def s20_circles(ctx):
         cx, cy = rng.choice([(0.0, 0.0), (100.0, -40.0), (5e5, 6.7e6)])
         target = Point(cx, cy).buffer(R)
         traces = gpd.GeoDataFrame(geometry=[LineString([(cx - 2 * R, cy + k * R / 4), (cx + 2 * R, cy + k * R / 4 + rng.uniform(-1, 1))]) for k in range(-3, 4)])
+        if i % 2 == 1:
+            # a caller's frame whose integer labels are not the row positions (sorted / shuffled / concatenated data)
+            labels = list(range(len(traces)))
+            random.Random(i).shuffle(labels)
+            traces.index = labels
         rmin = rng.choice([0.1, 0.5, 0.9]) * R
         mode = rng.choice([RandomChoice.radius, RandomChoice.area])
         seed = rng.randint(0, 2**31)
@@ -259,7 +264,7 @@ def s20_circles(ctx):
             a = sorted(g.wkt for g in net.trace_gdf.geometry.values)
             b = sorted(g.wkt for g in direct.geometry.values)
             clip_ok = a == b
-        meta.append({"seed": seed, "R": R, "centre": [cx, cy], "rmin": rmin, "mode": mode.value, "radius": sample.radius,
+        meta.append({"seed": seed, "R": R, "centre": [cx, cy], "rmin": rmin, "mode": mode.value, "radius": sample.radius, "index": [int(x) for x in traces.index],
                      "sample_centre": [sample.target_centroid.x, sample.target_centroid.y], "clip_ok": clip_ok})
     resps = ctx.driver.batch(reqs)
     for m, req, resp in zip(meta, reqs, resps):
